@@ -152,6 +152,8 @@ pub fn build(case: &Case) -> Built {
             fault: case.fault,
             end,
             write_max: None,
+            repeat: None,
+            repeat_cap: 0,
         },
         body_start,
         pmax,
